@@ -1,6 +1,7 @@
 """C10 - valid programs never hit memory errors, undefined behaviour or library aborts.
 
-Generated: the union of all scenario profiles (every op passes the validity
+Generated: (a) call sequences of the utility classes / containers from the generators of C20, C02, C01,
+C18, C17 and (b) the union of all scenario profiles (every op passes the validity
 filter of the interpreter or is skipped) plus stress scenarios that put
 container populations on both sides of their growth thresholds. Oracle: how the
 executor child ended - any ASan/UBSan report, SIGSEGV/SIGBUS/SIGFPE or abort
@@ -21,7 +22,10 @@ RULE = ("Hypothesis-generated scenarios from every profile (timing, mutex, queue
         "queue, condition, recording, mixed) executed under ASan+UBSan with the shipped assertion level; the oracle is "
         "the child's exit status (sanitizer report, fatal signal, abort from cmi_assert_failed = violation) including "
         "the teardown through the public API. Non-trivial = a process ended with obligations, a wait was cut short by "
-        "timeout/interrupt, a process was stopped or restarted, or somebody waited for an event/process. distinct = "
+        "timeout/interrupt, a process was stopped or restarted, or somebody waited for an event/process. About a "
+        "sixth of the cases are valid call sequences of the utility classes and containers (memory pools of any object "
+        "size, hashheap, event queue, datasets / time series / summaries) from the generators of C20, C02, C01, C18, "
+        "C17, judged here only by how the run ends (each counts as non-trivial when it ran to completion). distinct = "
         "SHA-1 of the scenario text.")
 ASSUMPTIONS = ["every generated op either satisfies its documented precondition when reached or is skipped",
                "ASan/UBSan (clang 14) with the guarded fiber annotations see what they need to see"]
@@ -30,11 +34,20 @@ _ALL = ["timing", "mutex", "queueing", "pool", "wakeup", "lifecycle", "buffer", 
         "recording", "mixed"]
 
 
+def _utility(tier):
+    """Valid call sequences of the utility classes and of the containers underneath the engine (memory pools
+    of any object size, hashheap, event queue, data arrays that double), taken from the generators of the
+    properties that own them; here only the way the run ends is judged."""
+    from . import c01, c02, c17, c18, c20
+    return [m.strategy(tier).map(m.serialize) for m in (c20, c20, c02, c01, c18, c17)]
+
+
 def strategy(tier):
     heavy = (tier == "thorough")
     big = [simgen.scenario(p, big=True) for p in _ALL] if heavy else []
     return st.one_of(*([simgen.scenario(p) for p in _ALL] + big + [simgen.stress(heavy)] * 4
-                       + [simgen.coincide()] * 2 + [simgen.crowd()] * 2 + [simgen.churn()]))
+                       + [simgen.coincide()] * 2 + [simgen.crowd()] * 2 + [simgen.churn(), simgen.deep()]
+                       + _utility(tier)))
 
 
 def serialize(case):
@@ -55,6 +68,18 @@ def fixed_cases(tier):
 
 
 def evaluate(text, ctx):
+    mode = text.split("\n", 1)[0].strip()
+    if mode != "mode sim":
+        from ..common import crash_outcome
+        from ..runner import Outcome
+        res = ctx.run(text, "asan")
+        if res.parse_error:
+            raise RuntimeError("generator produced an unparsable case:\n" + text[:2000])
+        if res.timed_out:
+            return Outcome(ok=True, inconclusive=True, classes=["timeout"])
+        if res.crashed:
+            return crash_outcome(res, "util-crash/" + mode.replace("mode ", ""))
+        return Outcome(ok=True, nontrivial=True, classes=["utility:" + mode.replace("mode ", "")])
     out = simprop.evaluate_family(text, ctx, FAMILY, NONTRIVIAL)
     if out.ok and ctx.tier == "thorough" and "rel" in ctx.build_dirs:
         # the shipped configuration (gcc -O3 -DNDEBUG): a crash or a library abort counts the same
